@@ -29,34 +29,33 @@ def SB_BITS : Nat := 2 ^ 32
 /-! ## builder -/
 
 /-- `while past_ones + ones_in_word > next_quantum` -/
-def invWhile (q i word past onesInWord : Nat) :
-    Nat → Array Nat → Array Nat → Bool → Nat → Out (Array Nat × Array Nat × Bool × Nat)
-  | 0, inv, beg, first, nq => .ok (inv, beg, first, nq)
-  | fuel + 1, inv, beg, first, nq =>
+def invWhile (q i word past onesInWord : Nat) : Nat → Array Nat → Nat → Out (Array Nat × Nat)
+  | 0, inv, nq => .ok (inv, nq)
+  | fuel + 1, inv, nq =>
     if past + onesInWord > nq then
       (subU nq past) >>= fun r =>
       (selInWord word r) >>= fun p =>
-        let beg' := if first then beg.push inv.size else beg
-        invWhile q i word past onesInWord fuel (inv.push ((i * 64 + p) % 2 ^ 32)) beg' false (nq + q)
-    else .ok (inv, beg, first, nq)
+        invWhile q i word past onesInWord fuel (inv.push ((i * 64 + p) % 2 ^ 32)) (nq + q)
+    else .ok (inv, nq)
 
-/-- the two nested `for` loops: `gi` is the global word index; `i = gi % 2^26` the index inside the
-chunk, `first` is reset at the start of every chunk -/
+/-- the two nested `for` loops: `gi` is the global word index, `i = gi % 2^26` the index inside the
+chunk (`.chunks(2^26)` over ALL backend words); at the start of every chunk `inventory.len()` is
+pushed to `inventory_begin` -/
 def invLoop (zero : Bool) (numOnes q : Nat) :
-    List Nat → Nat → Array Nat → Array Nat → Bool → Nat → Nat → Out (Array Nat × Array Nat × Nat)
-  | [], _, inv, beg, _, past, _ => .ok (inv, beg, past)
-  | w :: rest, gi, inv, beg, first, past, nq =>
+    List Nat → Nat → Array Nat → Array Nat → Nat → Nat → Out (Array Nat × Array Nat × Nat)
+  | [], _, inv, beg, past, _ => .ok (inv, beg, past)
+  | w :: rest, gi, inv, beg, past, nq =>
     let i := gi % SB_WORDS
-    let first := if i = 0 then true else first
+    let beg := if i = 0 then beg.push inv.size else beg
     let word := if zero then notW 64 w else w
     let onesInWord := min (popc word) (numOnes - past)
-    (invWhile q i word past onesInWord 65 inv beg first nq) >>= fun (inv', beg', first', nq') =>
-      invLoop zero numOnes q rest (gi + 1) inv' beg' first' (past + onesInWord) nq'
+    (invWhile q i word past onesInWord 65 inv nq) >>= fun (inv', nq') =>
+      invLoop zero numOnes q rest (gi + 1) inv' beg (past + onesInWord) nq'
 
 /-- `_new(small_counters, num_ones, log2_ones_per_inventory)` -/
 def buildNew (zero : Bool) (ws : Array Nat) (numOnes l : Nat) : Out Sel :=
   let q := 1 <<< l
-  (invLoop zero numOnes q ws.toList 0 #[] #[] true 0 0) >>= fun (inv, beg, past) =>
+  (invLoop zero numOnes q ws.toList 0 #[] #[] 0 0) >>= fun (inv, beg, past) =>
   (check (numOnes == past)) >>= fun _ =>
     if inv.isEmpty then .ok { inv := inv.push 0, begin := beg.push 0, l := l }
     else .ok { inv := inv, begin := beg.push inv.size, l := l }
